@@ -824,10 +824,10 @@ def main():
                 samples.append({"analysis": o["analysis"], "network": by_id[o["id"]]["spec"].get("name"),
                                 "request": o["base"], "run": {k: o["runs"][-1].get(k) for k in ("procs", "items", "rows", "raised")},
                                 "schedule": o["runs"][-1]["passes"][0]["events"] if o["runs"][-1]["passes"] else None})
-        ev = {
-            "coverage": {"obligations": info["obligations"], "discharged": info["discharged"]},
+        cov = {
+            "obligations": info["obligations"], "discharged": info["discharged"],
             "checker_cmd": info["checker_cmd"],
-            "axioms": info["axioms"],
+            "axioms_reported_by_Print_Assumptions": info["axioms"],
             "trusted_base": K.TRUSTED_COMMON + [
                 "multiprocessing (fork, Pool, imap_unordered, pickling), the OS scheduler, GLPK/optlang and pandas are "
                 "exercised, not verified; the model's abstract `solve`/`growth_of` stand for slim_optimize as a "
@@ -848,11 +848,13 @@ def main():
             "impl_wall_s": round(t_impl, 1),
             "generated_skeleton_facts": skeleton_facts(),
             "harness_faults": harness_faults[:5],
-            "assumptions": "Real process scheduling, pickling of the model into the workers and multiprocessing itself "
-                           "are explored (process counts, permutations, injected delays, hash seeds), not proved. Solver "
-                           "warm start is assumed not to change optimal values. loopless_fva_iter is abstract "
-                           "(assumed to restore, C13). Sampling: reproducibility and validity are tested, not modelled.",
         }
+        ev = {"coverage": cov,
+              "assumptions": ["Real process scheduling, pickling of the model into the workers and multiprocessing itself "
+                              "are explored (process counts, permutations, injected delays, hash seeds), not proved.",
+                              "Solver warm start is assumed not to change optimal values.",
+                              "loopless_fva_iter is abstract (assumed to restore, C13).",
+                              "Sampling: reproducibility and validity are tested, not modelled."]}
         rc = rep.finish(ev)
         if harness_faults and rc == 0:
             rc = 2
